@@ -272,7 +272,9 @@ SubstCase(n, sd) ==
   LET f == Form(sd, Depth, 1)
       kk == Val(f.sd) % 10
       k == IF kk < 6 THEN 0 ELSE IF kk < 9 THEN 1 ELSE 2
-      v == IF k = 0 THEN Pick(Nx(f.sd), <<"X", "X", "Y">>) ELSE IF k = 1 THEN Pick(Nx(f.sd), <<"N$i", "X$i">>) ELSE Pick(Nx(f.sd), SVars)
+      \* also the names anthem would pick as FRESH for a binder it has to rename (X1, Y1, N1$i ...), whether or not they occur
+      v == IF k = 0 THEN Pick(Nx(f.sd), <<"X", "X", "Y", "Y1", "X1", "X">>) ELSE IF k = 1 THEN Pick(Nx(f.sd), <<"N$i", "X$i", "N1$i", "X1$i", "N$i">>)
+           ELSE Pick(Nx(f.sd), SVars \o <<"S1$s", "X1$s">>)
       s2 == Nx(Nx(f.sd))
       t == IF k = 0 THEN GenTerm(s2, 1) ELSE IF k = 1 THEN IntTerm(s2, 2)
            ELSE [s |-> Pick(s2, <<"a", "S$s", "X$s", "b">>), sd |-> Nx(s2)]
